@@ -1009,12 +1009,20 @@ VERB_PIECES = ('{', '}', '[', ']', '$', '$$', '\\', '\\\\', '\\begin{itemize}', 
                'if (a[i] > 0) {', '\\begin{zq}', '\\end{zq}', '\\left(', '~', '^', '_')
 
 
-def verb_body(rng, name, hostile=True):
+def near_miss_closers(name):
+    """almost `\\end{name}`: none of them ends the environment (the body runs to the first exact `\\end{name}`)"""
+    return ('\\end {%s}' % name, '\\end\n{%s}' % name, '\\end\t{%s}' % name, '\\end{ %s}' % name, '\\end{%s }' % name,
+            '\\end{%s' % name, '\\end{%s' % name[:-1] + '}', '\\end%s' % name, '\\end[%s]' % name, '\\End{%s}' % name,
+            '\\end{{%s}}' % name, '\\begin{%s}' % name, '\\\\end{%sx}' % name, 'end{%s}' % name)
+
+
+def verb_body(rng, name, hostile=True, near=True):
     """A raw body within the provisos of C11 (not starting with (blanks) + opener, not ending with a
     backslash, no % on the last line, not containing its own end)."""
     for _ in range(50):
         n = rng.randint(0, 8)
-        b = ''.join(rng.choice(VERB_PIECES) for _ in range(n))
+        pieces = VERB_PIECES + (near_miss_closers(name) * 2 if near else ())
+        b = ''.join(rng.choice(pieces) for _ in range(n))
         if rng.random() < 0.4:
             b = '\n' + b + '\n'
         if verb_body_ok(b, name):
